@@ -8,15 +8,17 @@ apply = '--apply' in sys.argv
 ok = collections.defaultdict(int); bad = collections.defaultdict(int)
 names = []
 for l in out:
+    st = re.search(r'~(\S+)\s*$', l)
+    st = st.group(1) if st else ''
     m = re.match(r'\s+ok\s+(\S+)\s', l)
-    if m: names.append((m.group(1), True)); continue
+    if m: names.append((m.group(1), True, st)); continue
     m = re.match(r'\s+(failed|unknown:\S+)\s+(\S.*?)\s+@', l)
-    if m: names.append((m.group(2), False))
+    if m: names.append((m.group(2), False, st))
 def status(fn, item):
     pre = fn + '/' + item
     o = b = 0
-    for n, good in names:
-        if n == pre or n.startswith(pre + '['):
+    for n, good, st in names:
+        if ('@' in item and st == item and n.startswith(fn + '/')) or ('@' not in item and (n == pre or n.startswith(pre + '['))):
             if good: o += 1
             else: b += 1
     return o, b
